@@ -490,6 +490,18 @@ func c06Config(c *core.Ctx, k int) {
 			}
 		}
 		c06Call(c, deep, deepData, "issue path of many segments", true)
+		if k == 25 {
+			// a list of more than a million items (seven-digit positions), as a Go slice and as a JSON document
+			million := make([]any, 1000003)
+			for i := range million {
+				million[i] = 1
+			}
+			million[1000001] = "x" // an issue at a seven-digit position
+			c06Call(c, sliceOf(prim(spec.Int)), million, "list of 1 000 003 items", true)
+			doc := `{"tags":[` + strings.Repeat(`"t",`, 1000002) + `1]}`
+			wb := spec.Build(c06WireSchema(), nil)
+			c06Guard(c, "zjson.Decode of a list of 1 000 003 items", map[string]any{"json_document": "{\"tags\":[\"t\" x 1000002, 1]}"}, func() { run.Parse(wb, zjson.Decode(strings.NewReader(doc)), nil).MustNotPanic() })
+		}
 		for i := 0; i < 4; i++ {
 			c06Call(c, req(str()), "", "ordinary call after a deep one", false)
 			c06Call(c, structOf("a", req(str())), map[string]any{}, "ordinary call after a deep one", false)
